@@ -24,16 +24,10 @@ var _ = strings.TrimSpace
 // the too-large one leak into the scan.
 func c23Successor(c *core.Ctx) {
 	c.Clause("C23.range.successor", func() {
-		f := c.Fn("kvdb/pebble.bytesPrefix")
-		prefix := f.Param(0)
-		var loop *ast.ForStmt
-		f.InspectOwn(func(n ast.Node) bool {
-			if fs, ok := n.(*ast.ForStmt); ok && loop == nil {
-				loop = fs
-			}
-			return true
-		})
-		c.Need(loop != nil, "bytesPrefix scans the prefix from the end")
+		// the successor computation is located by what it does, not by its name or result type (c23FindSuccessor)
+		sc, why := c23FindSuccessor(c.P, c23Pbl, c23RangeFields[c23Pbl][0], c23RangeFields[c23Pbl][1])
+		c.Need(sc != nil, why)
+		f, prefix, loop := sc.g, sc.pp, sc.loop
 		var iv = func() *ast.Ident {
 			if as, ok := loop.Init.(*ast.AssignStmt); ok && len(as.Lhs) == 1 {
 				id, _ := as.Lhs[0].(*ast.Ident)
